@@ -54,8 +54,28 @@ impl ObserverMap {
     #[verifier::external_body]
     pub fn is_empty(&self) -> (r: bool) ensures r == (obs_len(self) == 0) { unimplemented!() }
 }
+/// the engine state as far as became_unnecessary touches it: a statistics counter (foreign Cell) and opaque callees
+pub struct CounterCell { pub v: usize }
+impl CounterCell {
+    #[verifier::external_body]
+    pub fn increment(&self) { unimplemented!() }
+}
 #[verifier::external_body]
-pub struct State { _p: u8 }
+pub struct HeapHandle { _p: u8 }
+impl HeapHandle {
+    /// R8: RecomputeHeap::remove by the part of its debug assertion that is about membership
+    #[verifier::external_body]
+    pub fn remove(&self, node: NodeRef) requires node.height_in_recompute_heap >= 0 { unimplemented!() }
+}
+pub struct State { pub num_nodes_became_unnecessary: CounterCell, pub recompute_heap: HeapHandle }
+impl State {
+    #[verifier::external_body]
+    pub fn set_height(&self, node: NodeRef, height: i32) { unimplemented!() }
+}
+impl ExpertLatch {
+    #[verifier::external_body]
+    pub fn observability_change(&self, is_now_observable: bool) { unimplemented!() }
+}
 
 //@extract enum Kind
 //@ file: src/kind.rs
@@ -79,6 +99,7 @@ pub struct Node {
     pub parents: Vec<WeakNode>,
     pub observers: ObserverMap,
     pub force_necessary: bool,
+    pub height_in_recompute_heap: i32,
     pub changed_at_cell: StampCell,
     pub recomputed_at_cell: StampCell,
 }
@@ -98,9 +119,11 @@ impl Node {
     #[verifier::external_body]
     fn is_stale_with_respect_to_a_child(&self) -> (r: bool) ensures r == stale_wrt_a_child(self) { unimplemented!() }
     #[verifier::external_body]
-    fn became_unnecessary(&self, state: &State)
-        requires !self.necessary(),
-    { unimplemented!() }
+    fn maybe_handle_after_stabilisation(&self, state: &State) { unimplemented!() }
+    #[verifier::external_body]
+    fn remove_children(&self, state: &State) { unimplemented!() }
+    #[verifier::external_body]
+    fn packed(&self) -> (r: NodeRef) ensures *r == *self { unimplemented!() }
 
     spec fn necessary(&self) -> bool { self.parents@.len() > 0 || obs_len(&self.observers) > 0 || self.force_necessary }
     spec fn stale(&self) -> bool {
@@ -192,6 +215,44 @@ impl Node {
 //@ props: C05 C06
 //@ contract:
 //@|     ensures r == (self.necessary() && self.stale()), // [computed-only-if-necessary-and-stale]
+//@end
+
+//@extract fn Node::is_in_recompute_heap
+//@ file: src/node.rs
+//@ impl: impl ErasedNode for Node
+//@ name: is_in_recompute_heap
+//@ as: fn is_in_recompute_heap(&self) -> (r: bool)
+//@ cells: height_in_recompute_heap
+//@ props: C05
+//@ contract:
+//@|     ensures r == (self.height_in_recompute_heap >= 0), // [queued-iff-it-has-a-heap-height]
+//@end
+
+//@extract fn Node::became_unnecessary
+//@ file: src/node.rs
+//@ impl: impl ErasedNode for Node
+//@ name: became_unnecessary
+//@ as: fn became_unnecessary(&self, state: &State)
+//@ tracing: yes
+//@ props: C05
+//@ contract:
+//@|     requires !self.necessary(),
+//@|     // [teardown-never-panics]: the debug assertion !needs_to_be_computed() and the precondition of
+//@|     // RecomputeHeap::remove (the node is queued) are obligations
+//@end
+
+//@extract fn Node::became_unnecessary!must_dequeue
+//@ file: src/node.rs
+//@ impl: impl ErasedNode for Node
+//@ name: became_unnecessary
+//@ as: fn became_unnecessary__queued_node_is_dequeued(&self, state: &State)
+//@ tracing: yes
+//@ panics: diverge
+//@ rule R8: `state.recompute_heap.remove(self.packed());` => `vx_diverge();` x1
+//@ props: C05
+//@ contract:
+//@|     requires !self.necessary(), self.height_in_recompute_heap >= 0,
+//@|     ensures false, // [a-node-that-becomes-unnecessary-while-queued-always-leaves-the-recompute-heap]
 //@end
 
 //@extract fn Node::check_if_unnecessary
